@@ -77,6 +77,10 @@ pub struct Case {
     /// buffer"): fresh from the pool, or already holding data.
     #[serde(default)]
     pub pool: Option<PoolSpec>,
+    /// Only under C06's audit: the future is dropped once this many requests
+    /// have been answered and it is Pending again (its next step is queued).
+    #[serde(default)]
+    pub abandon_after: Option<u8>,
 }
 
 #[derive(Copy, Clone, Debug, Serialize, Deserialize, PartialEq, Eq)]
@@ -211,6 +215,7 @@ struct Driver {
     selected: Vec<(usize, usize, usize)>,
     /// Non-select requests: (address, size) of the destination.
     direct: Vec<(usize, usize)>,
+    abandon_after: Option<u8>,
 }
 
 fn push_span(spans: &mut Vec<(usize, usize)>, addr: usize, len: usize) {
@@ -372,6 +377,10 @@ fn drive<F: Future>(world: &mut World, driver: &mut Driver, fut: F) -> Result<F:
                 break;
             }
             Ok(Poll::Pending) => {
+                if driver.abandon_after.is_some_and(|k| driver.seen.len() >= k as usize) {
+                    result = Err("abandoned:the future was dropped with its next step queued".to_string());
+                    break;
+                }
                 // Ring::poll only enters when the completion queue is empty.
                 for _ in 0..3 {
                     if let Err(e) = world.poll_ring(Some(Duration::ZERO)) {
@@ -382,11 +391,19 @@ fn drive<F: Future>(world: &mut World, driver: &mut Driver, fut: F) -> Result<F:
             }
         }
     }
-    sim::sim().enter_hook = None;
     {
         let _s = track::scope(track::TAG_A10);
         drop(fut);
     }
+    if driver.abandon_after.is_some() && result.is_err() {
+        // What the dropped future left in the queue (its step, the
+        // cancellation) is consumed and answered; the state must be reclaimed
+        // by these polls (or, at the latest, by the Ring's drop).
+        for _ in 0..3 {
+            let _ = world.poll_ring(Some(Duration::ZERO));
+        }
+    }
+    sim::sim().enter_hook = None;
     result
 }
 
@@ -442,7 +459,7 @@ impl Property for C10 {
             proptest::option::weighted(0.12, proptest::collection::vec(phantom_spec(), 1..=8)),
             proptest::option::weighted(0.3, (0u8..=2, prop_oneof![1 => 1u16..8, 4 => 1u16..=600], proptest::option::of((any::<u16>(), any::<u16>()))).prop_map(|(pool_log2, buf_size, prefill)| PoolSpec { pool_log2, buf_size, prefill })),
         )
-            .prop_map(move |(op, bufs, mbufs, array, n, offset, flags, zc, extract, transfers, phantom, pool)| Case { op: ops[op], bufs, mbufs, array, n, offset, flags, zc, extract, transfers, phantom, pool })
+            .prop_map(move |(op, bufs, mbufs, array, n, offset, flags, zc, extract, transfers, phantom, pool)| Case { op: ops[op], bufs, mbufs, array, n, offset, flags, zc, extract, transfers, phantom, pool, abandon_after: None })
             .boxed()
     }
 
@@ -513,7 +530,7 @@ fn run_case(case: &Case, ctx: &mut Ctx) {
     let fd = world.new_fd();
     let afd = world.fd(fd);
     let mut classes: Vec<&'static str> = Vec::new();
-    let mut driver = Driver { is_write: case.op.is_write(), transfers: case.transfers.clone(), next: 0, stream: Vec::new(), delivered: 0, seen: Vec::new(), errors: Vec::new(), zc_ops: false, phantom: case.phantom.is_some(), spans: Vec::new(), selected: Vec::new(), direct: Vec::new() };
+    let mut driver = Driver { is_write: case.op.is_write(), transfers: case.transfers.clone(), next: 0, stream: Vec::new(), delivered: 0, seen: Vec::new(), errors: Vec::new(), zc_ops: false, phantom: case.phantom.is_some(), spans: Vec::new(), selected: Vec::new(), direct: Vec::new(), abandon_after: case.abandon_after };
     let zc = case.zc && matches!(case.op, Op::SendAll | Op::SendAllVectored);
 
     let report = |ctx: &mut Ctx, kind: &str, msg: String| {
